@@ -176,7 +176,8 @@ def loops_correspondence(ctx):
     for name, gen, fn in (("CoreSet", coreset_cases, "check_coreset"), ("ProbCover", probcover_cases, "check_probcover"),
                           ("Clue/DiscriminativeAL", oracle_loop_cases, "check_oracle_loop"), ("GreedySamplingX", gsx_cases, "check_gsx"),
                           ("TypiClust", typiclust_cases, "check_typiclust"), ("Badge", badge_cases, "check_sampling"),
-                          ("DropQuery", dropquery_cases, "check_oracle_loop"), ("Falcun", falcun_cases, "check_sampling")):
+                          ("DropQuery", dropquery_cases, "check_oracle_loop"), ("Falcun", falcun_cases, "check_sampling"),
+                          ("BatchBALD", batchbald_cases, "check_bald")):
         terms, meta = gen(ctx, count)
         bad, err = ctx.coq_eval_cases("loop_" + fn, IMPORTS, fn, terms, chunk=100)
         if err:
@@ -521,6 +522,90 @@ def badge_cases(ctx, count):
         ctx.hist[f"badge:{cmode}:" + ("fallback" if any(not np.any(r > 0) for r in rec) else "weights")] += 1
         if k >= 2:
             ctx.nontriv(("badge", X.tobytes(), y.tobytes(), cmode, repr(rcd["candidates"]), bs, seed))
+    return terms, meta
+
+
+# ---------------------------------------------------------------------------------------------
+# BatchBALD (greedy_selection=False), AS WRITTEN: batch_bald computes the rows with a masked arg-max loop whose ties are broken by
+# rand_argmax(..., random_state=0) (the same noise vector in every step), query() picks again row by row with the strategy's own
+# generator.  The rows batch_bald returned and the generator state at the final rand_argmax are recorded from outside; the
+# model (bald_internal / bald_trace) must reproduce the internal NaN marks and the returned indices - duplicates included
+# (they are the recorded finding; a change of the selection logic is noticed although the violation itself is known).
+def batchbald_cases(ctx, count):
+    import copy
+    import skactiveml.pool._bald as B
+    from skactiveml.pool import BatchBALD
+    from . import poolreg as R
+    from .core import fkey
+    rng = ctx.rng("batchbald")
+    terms, meta = [], []
+    orig_bb, orig_ra = B.batch_bald, B.rand_argmax
+    for h in range(count):
+        n = int(rng.integers(3, 10))
+        X = rng.integers(0, 3, size=(n, 2)).astype(float)            # integer grid: duplicated points -> tied joint entropies
+        if rng.random() < 0.2:
+            X = rng.normal(size=(n, 2))                                # no ties: both tie-breaks agree
+        y = np.where(rng.random(n) < rng.choice([0.0, 0.3, 0.6]), 1.0, np.nan) * rng.integers(0, 2, size=n)
+        if not np.isnan(y).any():
+            y[int(rng.integers(0, n))] = np.nan
+        unl = [int(i) for i in np.flatnonzero(np.isnan(y))]
+        cmode = str(rng.choice(["none", "idx", "feat"]))
+        if cmode == "none":
+            cand, cmap, width = None, unl, n
+        elif cmode == "idx":
+            sub = sorted(int(i) for i in rng.choice(unl, size=int(rng.integers(1, len(unl) + 1)), replace=False))
+            cand, cmap, width = np.array(sub), sub, n
+        else:
+            m_ = int(rng.integers(1, 6))
+            cand = X[rng.integers(0, n, size=m_)].copy()
+            cmap, width = list(range(m_)), m_
+        m = len(cmap)
+        bs = int(rng.integers(1, m + 2))
+        k = min(bs, m)
+        seed = int(rng.integers(0, 1000))
+        rows_rec, noise_rec = [], []
+
+        def rec_bb(*a, **kw):
+            out = orig_bb(*a, **kw)
+            rows_rec.append(np.array(out, dtype=float).copy())
+            return out
+
+        def rec_ra(a, random_state=None, **kw):
+            if isinstance(random_state, np.random.RandomState) and kw.get("axis") == 1:
+                noise_rec.append(copy.deepcopy(random_state).random(np.shape(a)))
+            return orig_ra(a, random_state=random_state, **kw)
+        B.batch_bald, B.rand_argmax = rec_bb, rec_ra
+        rcd = {"strategy": "BatchBALD", "X": X.tolist(), "y": [None if v != v else v for v in y], "candidates_mode": cmode,
+               "candidates": None if cand is None else np.asarray(cand).tolist(), "batch_size": bs, "seed": seed}
+        try:
+            with warnings.catch_warnings():
+                warnings.simplefilter("ignore")
+                idx, ut = BatchBALD(n_MC_samples=int(rng.choice([5, 20])), random_state=seed).query(
+                    X, y, ensemble=R._ens([0, 1], seed), candidates=cand, batch_size=bs, return_utilities=True)
+        except Exception as e:
+            ctx.violation("BatchBALD", "exception:" + type(e).__name__, repr(e)[:300], rcd, what=f"BatchBALD.query raised {type(e).__name__}")
+            continue
+        finally:
+            B.batch_bald, B.rand_argmax = orig_bb, orig_ra
+        idx = [int(i) for i in np.asarray(idx).ravel()]
+        ut = np.asarray(ut, dtype=float)
+        rcd["returned_indices"] = idx
+        if len(rows_rec) != 1 or len(noise_rec) != 1 or rows_rec[0].shape != (k, m) or ut.shape != (k, width) or len(idx) != k:
+            ctx.violation("BatchBALD", "batch_length", f"{len(idx)} indices / utilities {ut.shape} / recorded rows {[r.shape for r in rows_rec]} for batch size {k}", rcd,
+                          what=f"BatchBALD: {len(idx)} indices, utilities of shape {ut.shape}, expected {k} x {width}")
+            continue
+        rows, nzB = rows_rec[0], noise_rec[0]
+        allk = rank_keys([fkey(v) for v in np.concatenate([rows.ravel(), ut.ravel()])])
+        rk, uk = np.array(allk[:rows.size], dtype=object).reshape(rows.shape), np.array(allk[rows.size:], dtype=object).reshape(ut.shape)
+        vr = lambda r: listlit(["None" if v is None else f"(Some {zlit(int(v))})" for v in r])
+        nzA = np.random.RandomState(0).random(m)
+        obs = listlit([f"({natlit(idx[i])}, {vr(uk[i])})" for i in range(k)])
+        terms.append(f"({natlit(width)}, {natlist(cmap)}, {listlit([vr(r) for r in rk])}, {_nz([nzA])[1:-1]}, {_nz(list(nzB))}, {obs})")
+        meta.append(rcd)
+        ctx.count("batchbald_loop_correspondence")
+        ctx.hist[f"batchbald:{cmode}:" + ("duplicates" if len(set(idx)) < len(idx) else "distinct")] += 1
+        if k >= 2:
+            ctx.nontriv(("batchbald", X.tobytes(), y.tobytes(), cmode, repr(rcd["candidates"]), bs, seed))
     return terms, meta
 
 
